@@ -681,7 +681,7 @@ class Sequence(ExprList, SeqDomain):
             yn = y[-1]
             for m, a1 in enumerate(a[1:]):
                 try:
-                    yn += a1 * y[-m - 2] / a0
+                    yn -= a1 * y[-m - 2] / a0
                 except:
                     pass
             y[-1] = yn
